@@ -1,9 +1,11 @@
 (* C15 driver.  Case line (decimal integers):
    E <mode> <hkind> <thr> <route> <method> <reqno> <nacts> { <tag> <a> <b> }*
-     <escaped> <wire> <nbody> { <chunk> }* <nrec> { <tag> <code> <ip> <m> <u> <id> <pv> }*
-   request = (method, uri = reqno, ip = 1, id = reqno) *)
+     <escaped> <wire> <body seen> <nbody> { <chunk> }* <nrec> { <tag> <code> <ip> <m> <u> <id> <pv> }*
+   request = (method, uri = reqno, ip = 1, id = reqno).
+   pv: the kind of panic value recognised in the ERROR record; 1000 + kind = recognised only loosely (the
+   text is non-empty and contains the value's salient payload, but is not the expected rendering): DRIFT. *)
 let () =
-  let cases = ref 0 and specfail = ref 0 and mismatch = ref 0 and outscope = ref 0 in
+  let cases = ref 0 and specfail = ref 0 and mismatch = ref 0 and outscope = ref 0 and drift = ref 0 in
   let ni s = n_of_int (int_of_string s) in
   iter_lines Sys.argv.(1) (fun line ->
     match split_ws line with
@@ -14,27 +16,33 @@ let () =
           match l with t :: a :: b :: r -> acts (i - 1) r (mk_act (ni t) (ni a) (ni b) :: acc) | _ -> bad () in
         let (sc, rest) = acts (int_of_string nacts) rest [] in
         (match rest with
-         | esc :: wire :: nbody :: rest ->
+         | esc :: wire :: bseen :: nbody :: rest ->
              let rec take i l acc = if i = 0 then (List.rev acc, l) else
                match l with x :: r -> take (i - 1) r (ni x :: acc) | [] -> bad () in
              let (body, rest) = take (int_of_string nbody) rest [] in
              (match rest with
               | nrec :: rest ->
+                  let loose = ref false in
                   let rec recs i l acc = if i = 0 then (List.rev acc, l) else
                     match l with
-                    | t :: c :: ip :: m :: u :: id :: pv :: r -> recs (i - 1) r (mk_rec (ni t) (ni c) (ni ip) (ni m) (ni u) (ni id) (ni pv) :: acc)
+                    | t :: c :: ip :: m :: u :: id :: pv :: r ->
+                        let pvi = int_of_string pv in
+                        let pvi = if pvi >= 1000 then (loose := true; pvi - 1000) else pvi in
+                        recs (i - 1) r (mk_rec (ni t) (ni c) (ni ip) (ni m) (ni u) (ni id) (n_of_int pvi) :: acc)
                     | _ -> bad () in
                   let (rs, rest) = recs (int_of_string nrec) rest [] in
                   if rest <> [] then bad ();
                   let rq = mk_req (ni m) (ni reqno) (n_of_int 1) (ni reqno) in
-                  let v = check_case (ni thr) rq sc (esc = "1") (ni wire) body rs in
+                  let v = check_case (ni thr) rq sc (esc = "1") (ni wire) (bseen = "1") body rs in
                   if not v.in_scope then incr outscope;
                   if not (spec_ok v) then begin
                     incr specfail;
                     Printf.printf "SPECFAIL %s noescape=%b relay500=%b records=%b\n" line v.spec_noescape v.spec_500 v.spec_records end
                   else if not v.model_ok then begin
                     incr mismatch; Printf.printf "MISMATCH %s\n" line end
+                  else if !loose then begin
+                    incr drift; Printf.printf "DRIFT %s\n" line end
               | [] -> bad ())
          | _ -> bad ())
     | _ -> ());
-  Printf.printf "STATS cases=%d specfail=%d mismatch=%d drift=0 outside_property_scope=%d\n" !cases !specfail !mismatch !outscope
+  Printf.printf "STATS cases=%d specfail=%d mismatch=%d drift=%d outside_property_scope=%d\n" !cases !specfail !mismatch !drift !outscope
